@@ -45,7 +45,7 @@ TOL = 1e-10
 DEP_KINDS = ["pure_dep", "em_dep"]
 # pure_twice / em_twice: the same tensor object supplied at two positions (twice explicitly; held by the object
 # and passed explicitly); multi3: a sibling of three methods of three objects
-MORE_KINDS = ["pure_twice", "em_twice", "multi3", "em_dict_rev"]
+MORE_KINDS = ["pure_twice", "em_twice", "multi3", "em_dict_rev", "em_pexp"]
 KINDS = [k for k in F.ALL_KINDS if k != "pure"] + DEP_KINDS + MORE_KINDS
 FUNCS = F.FUNCTIONALS + ["jac_solve"]
 
